@@ -7,6 +7,7 @@ import (
 	"net"
 	"strings"
 	"time"
+	"verifharness/memnet"
 
 	"verifharness/abs"
 
@@ -51,6 +52,9 @@ type cerSettings struct {
 	HostIPs  [][]int `json:"hostips"`
 	LocalIPs [][]int `json:"localips"`
 	Local    string  `json:"local"`
+	// CanAnswer is false when no CEA can reach the peer: no host address is configured and the
+	// local endpoint has no numeric address (the CEA cannot be built), or the transport refuses the write
+	CanAnswer bool `json:"cananswer"`
 }
 type peerID struct {
 	OH string `json:"oh"`
@@ -152,6 +156,7 @@ type cerVariant struct {
 	Configured []net.IP
 	Note       string
 	Dual       bool // the server's dictionary defines application 777 twice: as auth and as acct
+	WFail      bool // the transport refuses every write
 }
 
 const dualXML1 = `<?xml version="1.0" encoding="UTF-8"?><diameter><application id="777" type="auth" name="Dual-Auth"></application></diameter>`
@@ -182,7 +187,7 @@ func getDualParser(repo string) *dict.Parser {
 func runCER(id int, c *cerSpec, v cerVariant, dapps []appRef, repo string) cerLine {
 	c.Items = fixItems(c.Items)
 	set := &sm.Settings{OriginHost: srvSettings.OriginHost, OriginRealm: srvSettings.OriginRealm, VendorID: 13, ProductName: "verif-srv"}
-	cs := cerSettings{OH: string(set.OriginHost), OR: string(set.OriginRealm), HostIPs: [][]int{}, LocalIPs: [][]int{}, Local: v.Local}
+	cs := cerSettings{OH: string(set.OriginHost), OR: string(set.OriginRealm), HostIPs: [][]int{}, LocalIPs: [][]int{}, Local: v.Local, CanAnswer: !v.WFail}
 	for _, ip := range v.Configured {
 		set.HostIPAddresses = append(set.HostIPAddresses, datatype.Address(ip))
 		cs.HostIPs = append(cs.HostIPs, addrInts(ip))
@@ -192,6 +197,9 @@ func runCER(id int, c *cerSpec, v cerVariant, dapps []appRef, repo string) cerLi
 			cs.LocalIPs = append(cs.LocalIPs, addrInts(ip))
 		}
 	}
+	if len(cs.LocalIPs) == 0 && len(cs.HostIPs) == 0 {
+		cs.CanAnswer = false
+	}
 	l := cerLine{Ev: "cer", ID: id, Cer: *c, DictApps: dapps, Settings: cs, Peer: peerID{OH: peerHost, OR: peerRealm}, Note: v.Note,
 		Obs: cerObs{CEA: ceaObs{HostIPs: [][]int{}, HbH: []int{}, E2E: []int{}, Apps: []appRef{}}, Meta: metaObs{Apps: [][]int{}}}}
 	switch c.OH {
@@ -200,7 +208,31 @@ func runCER(id int, c *cerSpec, v cerVariant, dapps []appRef, repo string) cerLi
 	}
 	s := newSMServer(set, v.Local, func(s *smServer) { s.SM.HandleFunc("ALL", s.record("ALL")) })
 	defer s.shutdown()
+	if v.WFail {
+		s.Conn.OnWrite = func(int, []byte) memnet.WriteOutcome {
+			return memnet.WriteOutcome{N: 0, Err: &memnet.NetErr{Msg: "scripted write failure"}}
+		}
+	}
 	s.Conn.Feed(buildCER(c, dict.Default))
+	if !cs.CanAnswer {
+		// no answer can arrive: the outcome is definite once the handler has returned (the reader
+		// is parked again) or the transport is closed
+		s.Conn.WaitReaderBlocked(3 * time.Second)
+		l.Obs.Closed = s.Conn.Closed()
+		if msgs, _ := splitMsgs(s.Conn.Out()); len(msgs) > 0 {
+			l.Obs.CEA = parseCEA(&msgs[0])
+		}
+		if !l.Obs.Closed {
+			s.Conn.OnWrite = nil
+			s.Conn.Feed(appMsg(272, 4, true, 99))
+			s.Conn.WaitReaderBlocked(2 * time.Second)
+			if f := s.fired(); len(f) > 0 && f[0].Meta {
+				l.Obs.Meta.Present = true
+			}
+			l.Obs.Closed = s.Conn.Closed()
+		}
+		return l
+	}
 	// wait for one complete answer (or the connection being closed without one)
 	deadline := time.Now().Add(5 * time.Second)
 	var msgs []wireMsg
@@ -266,6 +298,8 @@ func CER(a Args) error {
 	}
 	dapps = append(dapps, appRef{T: "auth", ID: abs.B4(777)}, appRef{T: "acct", ID: abs.B4(777)})
 	base := cerVariant{Local: "10.0.0.1:3868", Note: "derived-ipv4"}
+	noaddr := cerVariant{Local: "pipe", Note: "no-address"}
+	wfail := cerVariant{Local: "10.0.0.1:3868", WFail: true, Note: "write-fails"}
 	id := 0
 	if a.Cases != "" {
 		err = ReadLines(a.Cases, func(line []byte) error {
@@ -275,6 +309,12 @@ func CER(a Args) error {
 			}
 			id++
 			out.Emit(runCER(id, &c, base, dapps, a.Repo))
+			switch id % 8 { // the same CER when no CEA can reach the peer
+			case 0:
+				out.Emit(runCER(id, &c, noaddr, dapps, a.Repo))
+			case 4:
+				out.Emit(runCER(id, &c, wfail, dapps, a.Repo))
+			}
 			return nil
 		})
 		if err != nil {
@@ -288,6 +328,7 @@ func CER(a Args) error {
 		{Local: "[2001:db8::1]:3868", Note: "derived-ipv6"},
 		{Local: "127.0.0.1:3868", Note: "derived-loopback"},
 		{Local: "[2001:db8::1]:3868", Configured: []net.IP{net.ParseIP("192.0.2.7")}, Note: "configured-ipv6-endpoint"},
+		noaddr, wfail,
 	}
 	ids := [][]int{abs.B4(4), abs.B4(3), abs.B4(12345), abs.B4(1), abs.B4(16777251), abs.B4(0xffffffff), abs.B4(16777238), abs.B4(77), abs.B4(777), abs.B4(777)}
 	randItem := func() appItem {
